@@ -385,10 +385,13 @@ def harness_cases(tier, sd):
     # an edge is added to a target whose new dependency was built after the target last ran
     add("part", "addedge", [B("T3"), B("T1"), {"op": "reshape"}, B("T3"), B("T3")])
     add("part", "addedge", [B("T3"), {"op": "reshape"}, B("T1"), {"op": "edit_src", "s": "s1"}, B("T1"), B("T3"), B("T3")])
+    NC = lambda b: dict(b, clean=False)
+    # an edge goes away and comes back with everything else unchanged: nothing runs
+    add("part", "unwire", [B("T2"), {"op": "reshape"}, NC(B("T2")), {"op": "reshape"}, B("T2"), B("T2")])
+    add("part", "addedge", [B("T3"), B("T1"), {"op": "reshape"}, B("T3"), {"op": "reshape"}, NC(B("T3")), {"op": "reshape"}, NC(B("T3")), NC(B("T3"))])
     # an edge is removed from an up-to-date target, then a dry run: nothing may be written
     # (the harness bodies read their declared dependencies' outputs, so a from-scratch build of the
     # unwired tree is not comparable: clean=False)
-    NC = lambda b: dict(b, clean=False)
     add("dry", "unwire", [B("T2"), {"op": "reshape"}, B("T2", "dry"), NC(B("T2")), NC(B("T2"))], twin="dry")
     add("dry", "unwire", [B("T2"), {"op": "reshape"}, B("T2", "dry"), {"op": "edit_src", "s": "s1"}, B("T1"), NC(B("T2"))], twin="dry")
     # a failing target and an independent out-of-date branch: the dry run still predicts the branch
